@@ -36,6 +36,9 @@ def ord_tree():
         'sub2': D({'a.txt': F(1000, mtime=y - 1), 'k.md': F(9, mtime=y + 3, uid=100)}, mtime=y - 86400),
         'h1': F(7, mtime=y), 'h2': {'t': 'f', 'link': 'h1'}, 'h3': {'t': 'f', 'link': 'h1'},
     }
+    # keys beyond 2^31 that differ by one (a float tolerance would tie them), and the hour repeated when DST ends in Berlin
+    t['big'] = D({'g0': F(3 * 10 ** 9, sparse=True, mtime=1635640200), 'g1': F(3 * 10 ** 9 + 1, sparse=True, mtime=1635643800),
+                  'g2': F(3 * 10 ** 9 + 2, sparse=True, mtime=1635647400), 'g3': F(3 * 10 ** 9 - 1, sparse=True, mtime=1635636600)}, mtime=y + 11)
     # a file with 11 hard links (its names live in their own directory)
     t['many'] = D({'m0': F(3, mtime=y + 7)}, mtime=y + 9)
     for i in range(1, 11):
